@@ -51,6 +51,7 @@ def run(ctx):
     malsec.field_transport(ctx, facts, "FIELDS-block")
     malsec.batch_store_grows(ctx, facts, "STORE-grow")
     malsec.segment_packing(ctx, facts, "PACK-slots")
+    malsec.batch_origin(ctx, facts, "PACK-slots")
     malsec.drop_guard(ctx, facts, "WHO-drop")
     from rules import C04
     C04.wire_acc(ctx, facts)
